@@ -23,9 +23,9 @@ from . import runner as R
 from . import tlc
 from .common import NCPU, PY, VERIF, Timer, child_env, scratch, seed, tier
 
-CONCRETE = {"a": "alpha", "b": "beta", "c": "gamma"}
+CONCRETE = {"a": "alpha", "b": "beta", "c": "gamma", "yy": "stale_one", "zz": "stale_two"}
 PROSE = {"alpha": "the first thing", "beta": "how many of them", "gamma": "where to put it", "kwargs": "forwarded on",
-         "width": "the width", "depth": "the depth"}
+         "width": "the width", "depth": "the depth", "stale_one": "a key passed on", "stale_two": "another key passed on"}
 TYP = {"absent": None, "int": "int", "str": "str", "OptInt": "Optional[int]", "float": "float"}
 DEFVAL = {"int": 5, "str": "mnist", "OptInt": None, "absent": 5, "float": 0.5}
 
@@ -69,7 +69,10 @@ def decorate(core, rnd, variant):
     doc = []
     for d in core["doc"]:
         n = CONCRETE[d]
-        p = next(x for x in params if x["n"] == n)
+        p = next((x for x in params if x["n"] == n), None)
+        if p is None:          # documented, not a parameter (Merge.tla DocExtras)
+            doc.append({"n": n, "typ": rnd.choice(["absent", "int"])})
+            continue
         dt = rnd.choice(["absent", "same", "same", "other"])
         typ = "absent" if dt == "absent" or (dt == "same" and p["ann"] == "absent") else (p["ann"] if dt == "same" else "float")
         doc.append({"n": n, "typ": typ})
@@ -247,10 +250,17 @@ def worker_main(inp, outp):
 
 # ------------------------------------------------------------------------------------------------ check
 
-def build(thorough, rnd):
+def build(thorough, rnd, extras=False):
     d = scratch("mg-")
-    tlc.export("MergeExport.tla", "MergeExport.cfg", d)
+    tlc.export("MergeExport.tla", "MergeExport_extras.cfg" if extras else "MergeExport.cfg", d)
     cores = tlc.read_ndjson(os.path.join(d, "merge.ndjson"))
+    if extras:
+        # C12: every input without documented non-parameters, and a sample of those with one or two of them
+        plain = [c for c in cores if not any(x in ("yy", "zz") for x in c["doc"])]
+        ext = [c for c in cores if any(x in ("yy", "zz") for x in c["doc"])]
+        two = [c for c in ext if "yy" in c["doc"] and "zz" in c["doc"]]
+        one = [c for c in ext if not ("yy" in c["doc"] and "zz" in c["doc"])]
+        cores = plain + rnd.sample(two, min(len(two), 1500 if thorough else 300)) + rnd.sample(one, min(len(one), 500 if thorough else 100))
     variants = [{"kind": k, "style": s} for k in ("function", "method", "class") for s in ("rest", "numpydoc", "google")]
     scs = []
     reps = 4 if thorough else 1
@@ -310,14 +320,14 @@ def run(prop, propose=False, replay=None):
             mcs.append(tlc.model_check("Merge.tla", "Merge_intended.cfg", workers=4))
         else:
             mcs.append(tlc.model_check("Process.tla", "Process.cfg", workers=4))
-            mcs.append(tlc.model_check("Merge.tla", "Merge_intended.cfg", workers=4))
+            mcs.append(tlc.model_check("Merge.tla", "Merge_extras.cfg", workers=4))
     if replay:
         with open(replay) as f:
             scs = [json.load(f)["scenario"]]
     else:
-        scs = build(thorough, rnd)
-        if prop == "C12" and not thorough:
-            scs = scs[:: 3]
+        scs = build(thorough, rnd, extras=(prop == "C12"))
+        if prop == "C12":
+            scs = scs[:: (2 if thorough else 3)]
     seeds = (list(range(16)) + ["random", "random"]) if thorough else ([0, 1, 2, 3] + (["random", 5, 6, 7] if prop == "C12" else []))
     outs = run_seeds(scs, seeds, rnd, orders=(3 if prop == "C12" else 1), rounds=(2 if prop == "C12" else 1), emit=(prop == "C12"))
     base = outs[0][2]["results"]
@@ -368,7 +378,8 @@ def run(prop, propose=False, replay=None):
                     continue
                 seen.add(e["input"])
                 sc = src_by[e["input"]]
-                feat = {"k": "process", "cl": cl, "op": op, "kind": sc["kind"], "style": sc["style"], "ndoc": len(sc["doc"]), "kwargs": sc["kwargs"] or "none", "comps": []}
+                feat = {"k": "process", "cl": cl, "op": op, "kind": sc["kind"], "style": sc["style"], "ndoc": len(sc["doc"]), "kwargs": sc["kwargs"] or "none",
+                        "nextras": sum(1 for x in sc["doc"] if x["n"].startswith("stale_")), "comps": []}
                 if matcher.match(feat) is None:
                     if propose:
                         unmatched.append(feat)
@@ -397,7 +408,8 @@ def run(prop, propose=False, replay=None):
     cov.update({"traces_validated_against_impl": ntr, "definitions": len(scs), "processes": len(outs), "hash_seeds": [str(s) for s in seeds],
                 "failing_traces": len(fails), "known_findings_matched": len(matcher.hits), "stale_findings": matcher.stale(), "exhaustive": False,
                 "rule": "definitions generated from every (signature, docstring subset/order) input of Merge.tla, decorated with kinds, annotations, "
-                        "documented types, 3 styles, function/method/class+__init__; one interpreter per PYTHONHASHSEED (and per call order for C12)",
+                        "documented types, 3 styles, function/method/class+__init__ (C12: also with one or two documented names that are not parameters); "
+                        "one interpreter per PYTHONHASHSEED (and per call order for C12)",
                 "samples": samples})
     return R.finish(prop, "model_checking", cov, timer, violations[:200], matcher.report_lines(),
                     ["Python's view = inspect.signature / __annotations__ of the executed definition",
